@@ -3,8 +3,8 @@ from __future__ import annotations
 
 import json
 
-from .. import core, gen, impl_conc
-from . import c14
+from .. import core, gen, impl_aio, impl_conc
+from . import c14, c18
 
 ID = "C15"
 BUDGET = {"quick": 600, "thorough": 60000}
@@ -16,7 +16,10 @@ RULE = ("scenario = one real threading Scheduler, 2-5 jobs (one-shots, jobs on t
         "is afterwards rescheduled or retired, jobs scheduled from a callback are registered but not run by that call, jobs "
         "deleted from a callback stay deleted; plus the lock discipline of C14; non-trivial = a callback that deleted a job of "
         "the same batch or printed the scheduler while another worker was active; distinct by (scenario, interleaving) hash. "
-        "(The asyncio front end's callbacks-on-their-scheduler cases are in C18.)")
+        "30% of the scenarios use the asyncio front end instead (virtual-time loop, the C18 generator restricted to histories in "
+        "which a coroutine acts on its own scheduler: deletes its own / another job, deletes by tag, schedules): model "
+        "correspondence, no task ends in an exception, a job deleted from a coroutine never starts again and stays "
+        "unregistered, jobs scheduled from a coroutine are registered")
 ASSUMPTIONS = c14.ASSUMPTIONS[:1] + ["callbacks do not call exec_jobs themselves", "callbacks terminate"]
 S = 1_000_000
 
@@ -42,8 +45,20 @@ def gen_script(rng, nj, me):
     return acts
 
 
+def aio_scenarios(rng):
+    """C18-style histories in which some coroutine uses its own scheduler"""
+    while True:
+        for scn in c18.scenarios(rng, 8, "quick"):
+            if any(a[0] in ("ad", "at", "as") for o in scn["ops"] if o["op"] == "sch" for run in o.get("runs", []) for a in run["acts"]):
+                yield scn
+
+
 def scenarios(rng, n, tier):
+    aio = aio_scenarios(rng)
     for _ in range(n):
+        if rng.random() < 0.3:
+            yield next(aio)
+            continue
         clock = gen.rand_instant(rng)[0] // S * S
         nj = rng.randint(2, 5)
         jobs = []
@@ -64,10 +79,23 @@ def scenarios(rng, n, tier):
                "sched": {"kind": rng.choice(["random", "pct"]), "seed": rng.randrange(10**9), "depth": rng.randint(1, 4)}}
 
 
-runner = c14.runner
+def runner(scn):
+    return impl_aio.run_scenario(scn) if scn.get("aio") else c14.runner(scn)
+
+
+project = impl_aio.project
+
+
+def aio_specs(r):
+    """the clauses of C15 on an asyncio history: nothing raises, deleted stay deleted (never start again,
+    never registered again), what vanished without a delete had no attempts left"""
+    keep = ("no_start_after_delete", "no_task_error", "vanished although", "delete_registered_succeeds")
+    return [(q, info) for (q, info) in c18.specs(r) if any(info.get("what", "").startswith(k) for k in keep)]
 
 
 def specs(r):
+    if r["scn"].get("aio"):
+        return aio_specs(r)
     out, scn = r["obs"][0], r["scn"]
     qs = []
     if out.get("deadlock"):
@@ -125,6 +153,8 @@ signature = c14.signature
 
 
 def classes(r):
+    if r["scn"].get("aio"):
+        return ["front:asyncio"] + c18.classes(r)
     out, scn = r["obs"][0], r["scn"]
     cl = [f"n_threads:{scn.get('n_threads')}", f"callers:{len(scn['threads'])}"]
     for j in scn["jobs"]:
@@ -135,4 +165,6 @@ def classes(r):
 
 def nontrivial(r):
     cl = classes(r)
+    if r["scn"].get("aio"):
+        return "act:ad" in cl or "act:at" in cl
     return "cb:del" in cl or "cb:dtags" in cl or "cb:str" in cl
